@@ -102,7 +102,7 @@ class C07:
                 store='det', meta={'kind': 'big'})
         big_shape = [rng.randint(16, 40), rng.randint(16, 40)]
         setup()
-        seeds = [rng.randrange(1000) for _ in range(2)]
+        seeds = [rng.randrange(1000), rng.choice([0, rng.randrange(1000)])]
         nops = rng.randint(10, 30)
 
         alt = draw_optics(rng, [1, 0] if need_x else None)
@@ -158,15 +158,20 @@ class C07:
                 ps = rng.randrange(10 ** 6)
                 kk = rng.randint(min(3, tot), max(min(3, tot), min(tot, 12)))
                 grp = len(b.events)
+                spread = None
+                if rng.random() < 0.4:
+                    # ... or points at wildly different distances
+                    tilt, spread = None, rng.randrange(10 ** 6)
                 pts = b.emit('points_from_grid',
                              {'det': img, 'perm_seed': ps, 'k': kk,
-                              'tilt': tilt}, store='pts')
+                              'tilt': tilt, 'spread': spread}, store='pts')
                 calc(pts, pi, kind, extra_tags={'route': 'tilted-group',
                                                 'grp': grp, 'ref': False})
                 for j in rng.sample(range(kk), min(kk, 3)):
                     p1 = b.emit('points_from_grid',
                                 {'det': img, 'perm_seed': ps, 'k': kk,
-                                 'tilt': tilt, 'only': [j]}, store='pts')
+                                 'tilt': tilt, 'spread': spread,
+                                 'only': [j]}, store='pts')
                     calc(p1, pi, kind, extra_tags={'route': 'tilted-single',
                                                    'grp': grp, 'j': j,
                                                    'ref': False})
@@ -315,7 +320,7 @@ class C07:
                     if err > 1e-9:
                         ex.add(violation(
                             'C07.value', gev['id'],
-                            'the point %r of a slightly tilted point list '
+                            'the point %r of a point list with varying z '
                             'gives %.3g (relative) another value inside the '
                             'list than on its own' % (
                                 gpts[j].tolist(), err),
